@@ -288,7 +288,11 @@ class Tr:
                     or not isinstance(node.generators[0].target, ast.Name):
                 raise self.err(node, 'list comprehension outside the subset')
             g = node.generators[0]
-            seq, ss = self._E(g.iter, env)
+            if isinstance(g.iter, ast.Call) and dotted(g.iter.func) == 'range' and len(g.iter.args) == 1 and not g.iter.keywords:
+                n_, _ = self.E(g.iter.args[0], env, 'nat')
+                seq, ss = f'(List.range {n_})', 'natlist'
+            else:
+                seq, ss = self._E(g.iter, env)
             elem = {'natlist': 'nat', 'intlist': 'int', 'vec': 'K'}.get(ss)
             if elem is None:
                 raise self.err(node, f'comprehension over sort {ss}')
@@ -360,6 +364,16 @@ class Tr:
                         return f'(List.map (fun t => t {sym} {b}) {a})', 'intlist'
                     return f'(List.map (fun t => Int.fdiv t {b}) {a})', 'intlist'
                 raise self.err(node, f'arithmetic on sorts {sa},{sb}')
+        if op in (ast.Sub, ast.Pow) and not isinstance(node.left, ast.Constant):
+            a, sa = self._E(node.left, env)
+            if sa == 'vfld':                        # an array of coordinate vectors (np.indices): elementwise
+                if op is ast.Pow and isinstance(node.right, ast.Constant) and node.right.value == 2:
+                    return f'(fun p => List.map (fun t => t * t) ({a} p))', 'vfld'
+                if op is ast.Sub:
+                    b, sb = self._E(node.right, env)
+                    if sb in ('nat', 'int', 'natlit', 'K'):
+                        return f'(fun p => List.map (fun t => t - {self.coerce(b, sb, "K", node)}) ({a} p))', 'vfld'
+                raise self.err(node, f'operator on an index array outside the subset')
         if op is ast.Pow:
             if isinstance(node.right, ast.Constant) and node.right.value == 2:
                 a, s = self._E(node.left, env, want)
@@ -623,6 +637,11 @@ class Tr:
             a, _ = self.E(node.func.value.value, env, p.args[0])
             i, _ = self.E(node.func.value.slice, env, p.args[1])
             return f'(P.{p.field} {a} {i})', p.ret
+        if isinstance(node.func, ast.Attribute) and node.func.attr == 'sum' and len(node.args) == 1 and not node.keywords \
+                and isinstance(node.args[0], ast.Constant) and node.args[0].value == 0 and isinstance(node.func.value, ast.Name) \
+                and env.get(node.func.value.id) == 'vfld':
+            a = lname(node.func.value.id)          # `indices.sum(0)`: the sum over the leading (coordinate) axis, per position
+            return f'(fun p => List.foldl (fun a b => a + b) (ofNat 0) ({a} p))', 'fld'
         if d == 'len' and len(node.args) == 1 and not node.keywords:
             a, sa = self._E(node.args[0], env)
             if sa in LIST_ELEM:
@@ -1456,6 +1475,17 @@ for _fam in (LABELED,):
         if _p.mutates is not None:
             MUTATING[_k] = _p.mutates
 
+LEAN_TYPE['vfld'] = 'X → List K'
+DISK = Family(
+    'disk', ['K', 'X', 'A', 'D'], '[Add K] [Sub K] [Mul K] [LT K] [DecidableLT K]', 'DiskPrims',
+    {
+        'const:bool': Prim('bool_dtype', [], 'dtype'),
+        'const:float': Prim('float_dtype', [], 'dtype'),
+        'np.zeros': Prim('zeros', ['natlist', 'dtype'], 'arr'),
+        '_morph.disk_2d': Prim('disk_2d', ['arr', 'nat'], 'bfld', doc='the C++ kernel for two dimensions'),
+        'np.indices': Prim('indices', ['natlist', 'dtype'], 'vfld', doc='`np.indices(shape, float)`: at every position, its coordinate vector'),
+    }, extra_params='(ofNat : Nat → K) ', prop='C01')
+
 HISTO = Family(
     'histogram thresholds', ['H', 'G'], '', 'HistPrims',
     {
@@ -1520,6 +1550,8 @@ TARGETS = [
     Target('labeled.py', 'remove_regions_where', [('labeled', 'larr'), ('conditions', 'carr'), ('inplace', 'bool')], 'larr', LABELED),
     Target('labeled.py', 'is_same_labeling', [('labeled0', 'larr'), ('labeled1', 'larr')], 'bool', LABELED),
     Target('labeled.py', 'bwperim', [('bw', 'larr'), ('n', 'nat'), ('mode', 'str')], 'bimg', LABELED),
+    Target('morph.py', 'disk', [('radius', 'nat'), ('dim', 'nat')], 'bfld', DISK,
+           consts={'bool': ('P.bool_dtype', 'dtype'), 'float': ('P.float_dtype', 'dtype')}),
     Target('euler.py', 'euler', [('f', 'arr'), ('n', 'nat'), ('mode', 'str')], 'res', EULER,
            consts={'_euler_lookup8': ('P.lookup8', 'tbl'), '_euler_lookup4': ('P.lookup4', 'tbl'), '_powers': ('P.powers', 'kern')}),
     # `out` is a LOCAL here (the array that fixes the output shape), not a destination-buffer parameter: it is kept
@@ -1530,7 +1562,7 @@ TARGETS = [
     Target('convolve.py', 'wavelet_center', [('f', 'arr'), ('border', 'int'), ('dtype', 'dtype'), ('cval', 'K')], 'arr', WAVE, raises=True),
     Target('convolve.py', 'wavelet_decenter', [('w', 'arr'), ('oshape', 'intlist'), ('border', 'int')], 'arr', WAVE, raises=True),
 ]
-FAMILIES = [MORPH, CONV, THRESH, HISTO, LAPL, RC, SOFT, EXTREMA, STRETCH, COLORS, COLORS2, WAVE, CIRCLE, RESIZE, EULER, LABELED]
+FAMILIES = [MORPH, CONV, THRESH, HISTO, LAPL, RC, SOFT, EXTREMA, STRETCH, COLORS, COLORS2, WAVE, CIRCLE, RESIZE, EULER, LABELED, DISK]
 
 
 def _find_function(tree, name):
